@@ -18,6 +18,7 @@ type Op struct {
 	Kind string `json:"kind"` // search | oneshot | compile_search | parse
 	Expr int    `json:"expr"`
 	Doc  int    `json:"doc"`
+	Jump int64  `json:"clock_jump_ns,omitempty"` // clock fault: the simulated clock jumps forward before this operation
 }
 
 type SchedSpec struct {
@@ -408,6 +409,11 @@ func installHooks(w *Workload) {
 	zzverifrt.Active = simrt.Active
 	zzverifrt.GoHook = simrt.Spawn
 	simrt.RealSpawned = zzverifrt.RealSpawned
+	zzverifrt.Clock = simrt.ClockNow
+	zzverifrt.ClockAdvance = simrt.ClockJump
+	simrt.TimerHook = zzverifrt.FireTimers
+	zzverifrt.RandSeed(int64(w.Sched.Seed))
+	simrt.ClockReset()
 	zzverifrt.MapOrder = mapOrderFn(w.MapSalt, w.MapPolicy)
 	simrt.SetNoPreempt(&zzverifrt.NoPreempt)
 }
@@ -456,10 +462,12 @@ func runSched(w *Workload) *RunReport {
 	for ci, ops := range w.Clients {
 		rep.Refs[ci] = make([]Outcome, len(ops))
 		for oi, op := range ops {
-			r, ok := refCache[op]
+			key := op
+			key.Jump = 0
+			r, ok := refCache[key]
 			if !ok {
-				r = reference(w, op)
-				refCache[op] = r
+				r = reference(w, key)
+				refCache[key] = r
 			}
 			rep.Refs[ci][oi] = r
 		}
@@ -545,6 +553,7 @@ func runSched(w *Workload) *RunReport {
 		bodies = append(bodies, func() {
 			simrt.Yield(-3)
 			for oi, op := range ops {
+				simrt.ClockJump(op.Jump)
 				rep.Outcomes[ci][oi] = execOp(op, e)
 				simrt.Yield(-2)
 				recheck(rep.Outcomes[ci], oi+1, "after other clients ran")
